@@ -134,6 +134,11 @@ class LFPSDetector(Elaboratable):
         # sequences of two correct LFPS cycles in a row.
         last_iteration_matched = Signal()
 
+        # Detect the start of a burst. This lives outside of the FSM so the edge detector's history
+        # is kept up to date in every state; otherwise a burst that begins in the same cycle we return
+        # to WAIT_FOR_NEXT_BURST is compared against a stale sample, and missed.
+        burst_started = rising_edge_detected(m, present, domain="ss")
+
         #
         # Detector state machine.
         #
@@ -145,7 +150,7 @@ class LFPSDetector(Elaboratable):
                 m.d.ss += last_iteration_matched.eq(0)
 
                 # If we've just seen the start of a burst, start measuring it.
-                with m.If(rising_edge_detected(m, present, domain="ss")):
+                with m.If(burst_started):
                     m.d.ss += count.eq(1),
                     m.next = "MEASURE_BURST"
 
